@@ -334,8 +334,11 @@ func c11Gen(t *rapid.T) c11Case {
 	case 0, 1, 2:
 	case 3, 4, 5:
 		line = mutate(t, line)
-	case 6, 7:
+	case 6:
 		line += " " + rapid.SampledFrom(c11OddParams).Draw(t, "odd")
+	case 7:
+		// two in a row: the second may repeat (and hide) the first one's keyword
+		line += " " + rapid.SampledFrom(c11OddParams).Draw(t, "odd") + " " + rapid.SampledFrom(c11OddParams).Draw(t, "odd2")
 	case 8:
 		line = mutate(t, mutate(t, line))
 	default:
